@@ -12,10 +12,20 @@ Correspondence (real code vs Model/Rpc.lean, same cases):
            the root and the interface objects x argument tuples with 32-bit edge values; observable = refused /
            arity fault / body entered (sys.setprofile on the method's code object)
   gate     every public method of the real interface in every mood: SHUTDOWN_STATE or not, and whether anything changed
+  collect  the real medusa body collector and the real channel's header buffer fed byte strings (the bodies of the
+           fragmented end-to-end requests as they were cut, valid and damaged UTF-8) in pieces: the text handed on, or the
+           exception raised, vs Model/Rpc.lean requestBody / requestHeader
 Monitors: the statement itself (closure, arity, gating, documented fault codes), and the real
 supervisor_xmlrpc_handler end-to-end: requests as HTTP bytes into a real deferring_http_channel, judged on the response bytes
 (status, Content-Length == body bytes, body parses, value == the direct call's value; immediate and deferred answers, non-ASCII
 names / signals / log contents / multicall elements).
+Delivery is a standard dimension of every end-to-end request: the same request is also handed to the channel cut into
+pieces (headers | body, inside the blank line, inside every multi-byte character, random 2..8 pieces, byte at a time; for the
+fragmentation corpus EVERY 2-piece cut of the whole request), as HTTP/1.0 / keep-alive / close / with a UTF-8 header value,
+with bodies larger than the channel's 4096-byte reads, and as the 2nd..4th request of one connection; the answer (HTTP
+status + XML-RPC value or fault code and text) must be a complete well-formed response and the same as for the request
+delivered at once (kinds no-answer-to-fragmented-request, answer-depends-on-fragmentation, answer-depends-on-http-variant,
+no-answer-on-reused-connection, answer-depends-on-connection-reuse).
 """
 import errno, inspect, os, re, socket, sys, types
 from framework import Infra
@@ -28,7 +38,9 @@ TRUSTED = [
     "Python's getattr / bound-method creation / argument binding (a call with a wrong number of positional arguments raises TypeError before the body runs): a parameter of the model (Kind, minArgs, maxArgs), exercised not verified",
     "str.split('.') and str.startswith('_') are modelled on character lists (splitDot, head?)",
     "method *bodies* are arbitrary state transformers in the theorems; which faults each real body raises is read off the AST (raisesTable), not proved from the body",
-    "xmlrpclib marshalling, the medusa request/producer objects and DeferredXMLRPCResponse are exercised, not modelled: every end-to-end request is sent as HTTP bytes over a socketpair into a real deferring_http_channel (only its server object is a stub) with the real supervisor_xmlrpc_handler installed, and judged on the bytes that come back; only the Content-Length computation of the two response builders is modelled (generated contReq_a9/defResp_a1) and proved",
+    "xmlrpclib marshalling, the medusa request/producer objects and DeferredXMLRPCResponse are exercised, not modelled: every end-to-end request is sent as HTTP bytes over a socketpair into a real deferring_http_channel (only its server object is a stub) with the real supervisor_xmlrpc_handler installed, and judged on the bytes that come back; modelled and proved are only the Content-Length computation of the two response builders (generated contReq_a9/defResp_a1) and the way in: what the body collector keeps per received piece and hands to continue_request, what the channel's header buffer keeps and decodes (generated collKept/collHanded/chanKept/chanHeader; fragmentation invariance and encode/decode round trip)",
+    "asynchat's terminator scanning (which bytes of a recv() go to collect_incoming_data in which portions) is exercised through the real channel, not modelled; the invariance theorems hold for EVERY portioning, so they do not depend on it",
+    "bytes.decode('utf-8') is modelled by a byte-at-a-time automaton (Unicode table 3-7); its accept/reject decisions and results are compared with CPython's on valid and damaged input (correspondence 'collect')",
     "'never 500 / never hangs / daemon survives' is PARTIAL: proved = refused names and arity errors answer a fault without running anything, gated methods answer SHUTDOWN_STATE, log methods never raise (C16 log_rpc_never_raises), every fault name is in Faults; exercised = the real handler on every public method with arguments of the documented types",
 ]
 ASSUMPTIONS = [
@@ -39,7 +51,11 @@ RULE = ("rec: attribute tables drawn from the kinds {bound method with (min,max)
         "classmethod, staticmethod, lambda attribute, int, None}, names = all ns x attr incl. dunder and private, dotted chains, empty parts, "
         "0..4 arguments; multicall = random compositions incl. recursion, missing methodName, deferred calls; real: every name reachable "
         "from the live interface objects x argument tuples of 32-bit edge values / strings; gate: public methods x 4 moods; "
-        "e2e: every public method x generated arguments of the documented types.  non-trivial = the name resolves or is refused by a "
+        "e2e: every public method x generated arguments of the documented types x deliveries (at once; cut headers|body, inside the blank "
+        "line, inside each multi-byte character, at random into 2..8 pieces, byte at a time; every 2-piece cut for the fragmentation corpus "
+        "and a sample of methods with non-ASCII arguments; bodies of 4..16 KB; HTTP/1.0, keep-alive, close, UTF-8 header value; 2..4 requests "
+        "on one connection); collect: byte strings (UTF-8 of texts with 1..4-byte characters, damaged by truncation / overlong forms / "
+        "surrogates / stray bytes) x every 2-piece cut, byte at a time, random cuts.  non-trivial = the name resolves or is refused by a "
         "rule other than 'unknown namespace'; distinct = distinct (table-hash, name, argument count/values, mood)")
 
 EDGES = [0, 1, -1, 2**31 - 1, -2**31, 2**31 - 2, 7]
@@ -1216,8 +1232,8 @@ def run_frag(ctx):
     for m, p in FRAG_CORPUS:
         frag_case(ctx, m, p, 1, exhaustive=True)
     # ---- every public method taking text, non-ASCII arguments: exhaustive for a sample, the standard plans for the rest
-    for r in range(ctx.n(1, 6)):
-        picks = set(rng.sample(range(len(stringy)), min(len(stringy), 2 if ctx.tier == 'quick' else 6)))
+    for r in range(ctx.n(1, 10)):
+        picks = set(rng.sample(range(len(stringy)), min(len(stringy), 2 if ctx.tier == 'quick' else 8)))
         for i, (m, f) in enumerate(stringy):
             frag_case(ctx, m, nonascii_args(rng, f), rng.choice([1, 1, 1, -1, 0]), exhaustive=i in picks, http_variants=i in picks)
     # ---- bodies larger than the channel's read size: delivered at once they arrive in recv(4096) portions
@@ -1670,11 +1686,14 @@ def replay(ctx, data):
 # ---- MANIFEST metadata -----------------------------------------------------------------------
 TECHNIQUE = ("Lean 4 theorems over a model of traverse() on an arbitrary attribute table, the generated gate/raise/arity/Faults tables "
              "(AST of rpcinterface.py, xmlrpc.py, docs/api.rst) and a step-function model of system.multicall; differential "
-             "correspondence against the real traverse/multicall/interfaces and the real XML-RPC handler")
+             "correspondence against the real traverse/multicall/interfaces and the real XML-RPC handler; fragmentation invariance of the "
+             "request's way in (body collector, header buffer: generated expressions) with a proved UTF-8 encode/decode round trip, and "
+             "delivery (fragmentation, HTTP variant, connection reuse) as a dimension of every end-to-end request")
 LEVEL_TEXT = ("traverse_closed / refused_executes_nothing / arity_fault for every attribute table and every name; gating for every "
               "documented process-control and configuration method (no exception; F39 fixed in e65d15a) by decide over the whole generated "
               "table; every raised fault name is a constant of Faults; multicall = the calls one after another for every call list, "
-              "every deferred-callback behaviour and every tick schedule")
+              "every deferred-callback behaviour and every tick schedule; the text handed to continue_request is the decoding of the "
+              "whole body for every way of cutting the request into pieces (and is the client's text for every text)")
 LEVEL_NOTE = ("'never 500 / never hangs' is partial: proved for name resolution, arity, gating and the log methods; the method bodies and the "
               "HTTP plumbing are exercised through the real handler, not proved")
 DESIGN_REF = "DESIGN.md section 6, C12"
